@@ -429,9 +429,60 @@ def _labels(case):
 
 
 def SHARDS(tier):
-    return [{}] if tier == "quick" else [{} for _ in range(16)]
+    return [{}, {"part": "atheris"}] if tier == "quick" else [{} for _ in range(16)] + [{"part": "atheris", "k": k} for k in range(4)]
+
+
+def run_atheris(ctx):
+    """coverage-guided byte-level campaign (libFuzzer through atheris) on the decoder; the semantic oracle (reference parser)
+    lives inside the target; a saved failing input is re-judged by run_case and becomes the replay"""
+    import glob
+    import os
+    import shutil
+    import subprocess
+    import sys
+    import tempfile
+    from vlib.driver import ROOT
+    target = os.path.join(ROOT, "fuzz", "fuzz_wire.py")
+    tmp = tempfile.mkdtemp(prefix="c06fz_", dir="/var/tmp")
+    try:
+        corpus = os.path.join(tmp, "corpus")
+        os.makedirs(corpus)
+        seeds = [wire.ref_encode(4, 0, 1, 2, b"payload"), wire.ref_encode(1, 64, 0, 3, b"{}", [(b"CORR", b"abc")], b"\x01" * 16),
+                 wire.ref_encode(5, 2, 9, 1, zlib.compress(b"x" * 200)), wire.ref_encode(6, 0, 0, 42, b"ping", [(b"AAAA", b""), (b"BBBB", b"12345")])]
+        # (an empty corpus never gets past the 'PYRO' tag + version + magic within millions of runs: half of the campaigns start
+        #  from 4 valid messages, the other half from an empty corpus plus a dictionary of the three constants)
+        if ctx.shard.get("k", 0) % 2 == 0:
+            for i, m in enumerate(seeds):
+                with open(os.path.join(corpus, "seed%d" % i), "wb") as f:
+                    f.write(m)
+        with open(os.path.join(tmp, "dict"), "w") as f:
+            f.write('"PYRO"\n"PYRO\\x01\\xf6"\n"\\x4d\\xc5"\n"\\x00\\x00\\x00\\x08"\n')
+        runs = ctx.n(300000, 6000000)
+        r = subprocess.run([sys.executable, target, "wire", corpus, "-runs=%d" % runs, "-seed=%d" % (ctx.seed + 1 + ctx.shard.get("k", 0)), "-max_len=400",
+                            "-dict=" + os.path.join(tmp, "dict"), "-artifact_prefix=" + tmp + "/"],
+                           stdout=subprocess.PIPE, stderr=subprocess.STDOUT, text=True, cwd=tmp)
+        done = [l for l in r.stdout.splitlines() if "DONE" in l or "Done" in l]
+        ctx.notes["atheris_runs"] = runs
+        ctx.notes["atheris_summary"] = (done[0].strip() if done else r.stdout[-200:])[:200]
+        crashes = glob.glob(os.path.join(tmp, "crash-*"))
+        ctx.evaluations += runs
+        for c in crashes[:3]:
+            raw = open(c, "rb").read()
+            case = {"kind": "bytes", "raw": raw}
+            viols = run_case(case)
+            if not viols:
+                msg = [l for l in r.stdout.splitlines() if "OracleFailure" in l][-1:] or ["target raised"]
+                viols = [Violation("C06:atheris:target-failure", "libFuzzer input fails in the fuzz target but not in run_case: %s" % msg[0][:200])]
+            ctx.observe(case, viols, True, ["atheris"])
+        if r.returncode != 0 and not crashes:
+            raise RuntimeError("atheris campaign failed: " + r.stdout[-600:])
+        ctx.count({"kind": "atheris-campaign", "runs": runs, "seeded_corpus": ctx.shard.get("k", 0) % 2 == 0}, True, ["atheris-campaign"])
+    finally:
+        shutil.rmtree(tmp, ignore_errors=True)
 
 
 def run(ctx):
+    if ctx.shard.get("part") == "atheris":
+        return run_atheris(ctx)
     n = ctx.n(4000, 40000)
     ctx.search(case_strategy(), run_case, n, nontrivial=_nontrivial, labels=_labels, name="wire", max_rounds=8)
